@@ -28,7 +28,8 @@ def run(tier):
     wd = vlib.workdir("c08")
     exe_trk = arrays.build(wd, 2)
     exe_int = arrays.build(wd, 0)
-    plan = [("c08_d1", consts(1, 3, 3, False, ALL_OPS)), ("c08_d2", consts(2, 2, 3, False, ALL_OPS))]
+    d0ops = ["ctor_default", "ctor_ext", "ctor_fill", "ctor_copy", "ctor_move", "assign_copy", "assign_move", "self_assign", "swap", "write", "destroy"]
+    plan = [("c08_d0", consts(0, 0, 4, False, d0ops)), ("c08_d1", consts(1, 3, 3, False, ALL_OPS)), ("c08_d2", consts(2, 2, 3, False, ALL_OPS))]
     if tier == "thorough":
         plan += [("c08_d3", consts(3, 2, 3, False, ALL_OPS)), ("c08_d2_3slots", consts(2, 2, 3, False, ALL_OPS, slots=3)),
                  ("c08_d2_deep", consts(2, 2, 4, False, ALL_OPS))]
